@@ -26,6 +26,7 @@ var tailWraps = []tailWrap{
 	{"let", func(e, pre node) node { return nLet("let", []bind{{"m", pre}}, e) }},
 	{"letseq", func(e, pre node) node { return nLet("letseq", []bind{{"m", pre}, {"m2", nSym("m")}}, e) }},
 	{"scope", func(e, pre node) node { return nScope(pre, e) }},
+	{"cond-selftest", func(e, pre node) node { return nCond([]clause{{nCall(nSym("f"), nInt(0), nInt(1)), e}}, nInt(77)) }},
 	{"and", func(e, pre node) node { return nAnd(nInt(1), e) }},
 	{"or", func(e, pre node) node { return nOr(nNil(), e) }},
 }
